@@ -78,7 +78,7 @@ def visit_vec(acc, fam, vec):
     acc["n"] += 1
     sc = schema(fam)
     try:
-        obj = observe.cls_of(fam)(vec)
+        obj = observe.construct(fam, vec)
         ds = [obj.as_json(sort=s, minimal=m) for s, m in OPTS]
     except Exception as e:  # noqa
         if T.classify(fam, vec) != "ACCEPT":
